@@ -8,7 +8,7 @@ import time
 
 sys.path.insert(0, os.path.dirname(os.path.abspath(__file__)))
 import vlib
-from engines import hs_server, hs_client, tcp_stream
+from engines import hs_server, hs_client, tcp_stream, codec
 
 # property -> list of (engine module, operator prefixes that decide it)
 PROPS = {
@@ -19,11 +19,19 @@ PROPS = {
     "C14": [(hs_server, ["C14_"])],
     "C06": [(hs_server, ["C06_"]), (hs_client, ["C06_"])],
     "C08": [(hs_client, ["C08_"])],
+    "C01": [(codec.C01, ["C01_", "X_Harness"])],
+    "C02": [(codec.C02, ["C02_", "X_Harness"])],
+    "C11": [(codec.C11, ["C11_", "X_Harness"])],
     "C12": [(tcp_stream.C12, ["C12_"])],
     "C16": [(tcp_stream.C16, ["C16_"])],
 }
 
 ASSUME = {
+    "codec": [
+        "TLC enumerates the abstract domain of Codec.tla completely (field presence, document nesting, enum members, deviations, text forms over a 4-symbol alphabet); string payloads come from a seeded pool and are sampled, not enumerated",
+        "equality of envelopes is judged by an independent field-by-field projection, not by the library's own marshalling",
+        "TLC, CommunityModules Json, the Go runtime, encoding/json and gorilla/websocket are trusted",
+    ],
     "tcp-stream": [
         "TLC results hold inside the stated constants (envelope sizes, read limits, MaxWF/MaxRF fault budgets, MaxMarks fragmentation points per read of TcpStreamMC.tla)",
         "the connection under the transport returns only results a net.Conn may legally return; read limit below 512 bytes so that the decoder's request equals its budget",
